@@ -2,4 +2,5 @@
 EXTENDS Address
 ViewNoHist == <<fam, pc, str, byt, addr>>
 AllLens == 0..100
+QuickBytes == {B0, B1, <<"z", "d">>, <<"d", "a">>, <<"c", "z">>, <<"a", "c">>}
 ====
